@@ -33,7 +33,7 @@ Proof. exact read_string_write. Qed.
     increase from above 0-0, every entry has at least one field and distinct field names) and,
     if it has a deadline, an expiry time that fits u64 and lies after the load time [wl].
     [aged_db]: the keys alive at the save, the same values (streams without their consumer
-    groups and with last_id = last entry), every deadline moved by the difference of the two
+    groups, with last_id and the ID atomics = last entry, length counter = number of entries), every deadline moved by the difference of the two
     clocks' advances. *)
 Theorem c09_roundtrip :
   forall chk ver ctime now now' ws wl ds,
@@ -68,8 +68,7 @@ Definition example_ds : list db :=
          (marker, ent (VSet [bs "x"; bs "y"]) (Some 5000000));
          (bs "h", ent (VHash [(bs "f", bs "1"); (bs "g", [])]) None);
          (bs "z", ent (VZSet [(bs "a", f_nzero); (bs "b", 0); (bs "m", f_one); (bs "a2", f_pinf)]) None);
-         (bs "st", ent (VStream {| s_entries := [((1, 0), [(bs "f", bs "v")]); ((1, 1), [(bs "g", bs "w"); (bs "h", [])])];
-                                   s_last := (1, 1); s_groups := [] |}) (Some 200000));
+         (bs "st", ent (VStream {| s_entries := [((1, 0), [(bs "f", bs "v")]); ((1, 1), [(bs "g", bs "w"); (bs "h", [])])]; s_last := (1, 1); s_ams := fst (1, 1); s_aseq := snd (1, 1); s_len := len ([((1, 0), [(bs "f", bs "v")]); ((1, 1), [(bs "g", bs "w"); (bs "h", [])])] : list (sid * list (bytes * bytes))); s_groups := [] |}) (Some 200000));
          (bs "gone", ent (VStr (bs "expired before the save")) (Some 500)) ]
   :: mkdb [ (bs "other-db", ent (VStr (bs "v")) None) ] :: repeat empty_db 14.
 Example c09_guard_nonvacuous : rt_guard 1000 1700000000000 1700000060000 example_ds = true.
@@ -99,7 +98,7 @@ Proof. vm_compute. split; reflexivity. Qed.
 
 (** class empty-stream-lost: an emptied stream is not restored *)
 Example c09_empty_stream_refuted :
-  let ds := in_db0 [(bs "st", ent (VStream {| s_entries := []; s_last := (5, 1); s_groups := [] |}) None)] in
+  let ds := in_db0 [(bs "st", ent (VStream {| s_entries := []; s_last := (5, 1); s_ams := fst (5, 1); s_aseq := snd (5, 1); s_len := len ([] : list (sid * list (bytes * bytes))); s_groups := [] |}) None)] in
   let r := load true 0 1700000000000 (save (bs "0.1.0") 0 0 1700000000000 ds) in
   load_status r = LOk /\ load_dbs r = empty_dbs.
 Proof. vm_compute. split; reflexivity. Qed.
@@ -107,8 +106,7 @@ Proof. vm_compute. split; reflexivity. Qed.
 (** class stream-entry-without-fields: the loader's entry loop stops early and the rest of the
     stream is parsed as opcodes *)
 Example c09_stream_entry_without_fields_refuted :
-  let ds := in_db0 [(bs "st", ent (VStream {| s_entries := [((5, 1), [(bs "f", bs "v")]); ((6, 0), [])];
-                                              s_last := (6, 0); s_groups := [] |}) None);
+  let ds := in_db0 [(bs "st", ent (VStream {| s_entries := [((5, 1), [(bs "f", bs "v")]); ((6, 0), [])]; s_last := (6, 0); s_ams := fst (6, 0); s_aseq := snd (6, 0); s_len := len ([((5, 1), [(bs "f", bs "v")]); ((6, 0), [])] : list (sid * list (bytes * bytes))); s_groups := [] |}) None);
                     (bs "zz", ent (VStr (bs "after")) None)] in
   let r := load true 0 1700000000000 (save (bs "0.1.0") 0 0 1700000000000 ds) in
   load_status r = LErr /\ get_entry (nth 0 (load_dbs r) empty_db) (bs "zz") = None.
@@ -142,8 +140,8 @@ Proof. vm_compute. reflexivity. Qed.
 (** not persisted (outside the property's statement): consumer groups and a last_id beyond
     the last entry *)
 Example c09_stream_last_id_not_persisted :
-  let ds := in_db0 [(bs "st", ent (VStream {| s_entries := [((1, 1), [(bs "f", bs "v")])]; s_last := (9, 9); s_groups := [] |}) None)] in
+  let ds := in_db0 [(bs "st", ent (VStream {| s_entries := [((1, 1), [(bs "f", bs "v")])]; s_last := (9, 9); s_ams := fst (9, 9); s_aseq := snd (9, 9); s_len := len ([((1, 1), [(bs "f", bs "v")])] : list (sid * list (bytes * bytes))); s_groups := [] |}) None)] in
   let r := load true 0 1700000000000 (save (bs "0.1.0") 0 0 1700000000000 ds) in
   get_entry (nth 0 (load_dbs r) empty_db) (bs "st")
-  = Some (ent (VStream {| s_entries := [((1, 1), [(bs "f", bs "v")])]; s_last := (1, 1); s_groups := [] |}) None).
+  = Some (ent (VStream {| s_entries := [((1, 1), [(bs "f", bs "v")])]; s_last := (1, 1); s_ams := fst (1, 1); s_aseq := snd (1, 1); s_len := len ([((1, 1), [(bs "f", bs "v")])] : list (sid * list (bytes * bytes))); s_groups := [] |}) None).
 Proof. vm_compute. reflexivity. Qed.
